@@ -125,12 +125,13 @@ class Ctx:
         self.t0 = time.time()
         self.build = VERIF / "build" / pid
         self.build.mkdir(parents=True, exist_ok=True)
-        for f in self.build.glob("*"):
-            if f.is_file():
-                f.unlink()
         (self.build / "replay").mkdir(exist_ok=True)
-        for f in (self.build / "replay").glob("*"):
-            f.unlink()
+        if not replay:       # a --replay run must not delete the file it is asked to replay
+            for f in self.build.glob("*"):
+                if f.is_file():
+                    f.unlink()
+            for f in (self.build / "replay").glob("*"):
+                f.unlink()
         self.rng = random.Random("%s:%s:%d" % (pid, seed, GEN_VERSION))
         self.findings = load_findings(pid)
         self.obligations = []     # (kind, name, ok)
@@ -427,7 +428,7 @@ def parse_assumptions(out):
             i += 1
         elif b.startswith("Axioms:"):
             names = re.findall(r"^([A-Za-z0-9_.']+)\s*:", b, flags=re.M)
-            res["#%d" % i] = "Axioms: " + ", ".join(sorted(set(n for n in names if n != "Axioms")))
+            res["#%d" % i] = "Axioms: " + ", ".join(sorted(set(n for n in names if n not in ("Axioms", "Warning", "File"))))
             i += 1
     return res
 
